@@ -419,7 +419,9 @@ class Check:
         rejected by the conformance step; otherwise the binding is vacuous."""
         self.cov.setdefault("binding_selftests", []).append(dict(name=name, rejected=bool(rejected)))
         if not rejected:
-            raise Infra("binding self-test '%s' was NOT rejected: the conformance step does not bind" % name)
+            # decided in finish(): a violation found on the real code takes precedence (on a broken
+            # tree the corrupted behaviour may stop at an earlier, genuine disagreement)
+            self.__dict__.setdefault("selftests_failed", []).append(name)
 
     def finish(self, level="model_checking", exhaustive=None, explanation=None):
         new = []
@@ -450,6 +452,11 @@ class Check:
                         (len(mism), self.pid, json.dumps(mism[0])[:1500], path))
         if mism:
             print("note: %d model mismatches were also reported in this run" % len(mism))
+        stf = getattr(self, "selftests_failed", [])
+        if stf and not new:
+            raise Infra("binding self-test '%s' was NOT rejected: the conformance step does not bind" % stf[0])
+        if stf:
+            print("note: binding self-test(s) not rejected in this run: %s" % "; ".join(stf))
         cov = self.cov
         if exhaustive is not None:
             cov["exhaustive"] = bool(exhaustive)
